@@ -10,8 +10,20 @@ tie:    hand-written model  <->  Array::operator()(int / end-k / range / stride 
         write of fresh values through the view and a diff of the whole parent allocation; compared exactly with the
         model.  Two builds: default (admissible arguments only) and -DADEPT_BOUNDS_CHECKING (also a malformed stream
         that puts an out-of-range value in every argument position).
+        Integer-vector indexing (IndexedArray.h; op `ix`, harness/drv_views_idx*.cpp, model AdeptModel/IndexedViews.lean):
+        A(S0,S1,..) on the current view of rank 1..4 with every S a scalar int / end-k / range / stride / __ /
+        intVector / integer expression (tmp+2, end-tmp), at least one vector; the argument-type patterns are a menu
+        compiled once (all 3 for rank 1, every mixture for rank 2, every mixture of int/end-k/range/__/intVector for
+        rank 3, 12 fixed patterns for rank 4), the values come from the stream.  Answer: rank, extents, the values read
+        by B = A(..), the diff of the whole parent allocation after A(..) = V (fresh values) and after A(..) = -7.  In the
+        bounds-checked build also: entries n, n+1, -1 at every position of every index vector, bad scalars and range
+        end points.
 oracle: the composed index map evaluated element by element in Python (a view is the list of parent cells it
         denotes; no base/stride arithmetic, no use of the Lean model), judged against the implementation's output.
+        For `ix`: per dimension the list of parent indices the selector denotes (plain integer arithmetic), the
+        elements are the tuples of their product in index order; an element with a component outside 0..n-1 must not
+        be accessed (bounds-checked build: index_out_of_bounds, and the only cells changed are cells of in-range
+        elements holding a value assigned to them).
 """
 import os, json, itertools, threading
 import vbuild, vcheck
@@ -22,11 +34,16 @@ REQUIRED = ["C06_slice_addr", "C06_slice_rank", "C06_range_extent", "C06_subset_
             "C06_permute_addr", "C06_diag_addr", "C06_subdiag_addr", "C06_reshape_addr", "C06_softlink_addr",
             "C06_compose_addr", "C06_within_parent", "C06_cells_subset", "C06_within_allocation",
             "C06_checked_rejects", "C06_checked_rejects_sub1", "C06_checked_rejects_subset", "C06_checked_accepts",
-            "C06_within_parent_checked", "C06_is_contiguous_iff"]
+            "C06_within_parent_checked", "C06_is_contiguous_iff",
+            "C06_indexed_addr", "C06_indexed_extents", "C06_indexed_within_parent", "C06_indexed_read_write",
+            "C06_indexed_write_through", "C06_indexed_checked_rejects"]
 H = os.path.join(vbuild.VERIF, "harness")
 DRIVERS = [os.path.join(H, f) for f in ("drv_views.cpp", "drv_views_r4.cpp", "drv_views_r5.cpp",
-                                        "drv_views_r5i.cpp", "drv_views_r5e.cpp")]
-CORR = "AdeptModel/Views.lean <-> Array view-forming member functions (harness/drv_views.cpp)"
+                                        "drv_views_r5i.cpp", "drv_views_r5e.cpp", "drv_views_idx.cpp",
+                                        "drv_views_idx3.cpp", "drv_views_idx3v.cpp", "drv_views_idx4.cpp")]
+CORR = ("AdeptModel/Views.lean, AdeptModel/IndexedViews.lean <-> Array view-forming member functions and IndexedArray "
+        "(harness/drv_views*.cpp)")
+SIG_EMPTY = "indexed-array-zero-extent-after-nonzero-leading-extent"
 
 
 # ====================================================================== oracle: views as lists of parent cells
@@ -206,6 +223,173 @@ def oracle_apply(v, w, checked):
     return ("bad",)
 
 
+
+# ====================================================================== oracle: integer-vector indexing
+IX_MENU4 = ("IEVA", "EIEV", "VIEI", "AVIE", "IVRE", "VVVV", "EAVV", "RVAI", "IIEV", "VEEI", "AIVE", "VRAV")
+IX_VEC = "VXW"
+
+
+def ix_letter(a):
+    """letter of the C++ argument type the harness uses for selector token a (None: malformed)"""
+    if a == "_":
+        return "A"
+    if a[:2] in ("v:", "x:", "w:"):
+        return a[0].upper()
+    if a.startswith("i:"):
+        return "E" if a[2:3] == "e" else "I"
+    if a[:2] in ("r:", "s:"):
+        return "R"
+    return None
+
+
+def ix_compiled(letters):
+    """is this argument-type pattern in the menu compiled into the harness (drv_views_idx.h)?"""
+    r = len(letters)
+    if not any(l in IX_VEC for l in letters):
+        return False
+    if r in (1, 2):
+        return True
+    if r == 3:
+        return all(l in "IERAV" for l in letters)
+    if r == 4:
+        return "".join(letters) in IX_MENU4
+    return False
+
+
+def ints_of(t):
+    return [int(x) for x in t.split(",")] if t else []
+
+
+def oracle_ix(v, w, checked):
+    """A(S0,S1,..) on the oracle view v -> ('bad',) | ('err', class) | UNDEF |
+    ('ix', {'dims': extents, 'elems': parent index tuple of every element in index order, 'pdims': v.dims})"""
+    if v is None or v.null or not v.dims:
+        return ("bad",)
+    args = w[1:]
+    if len(args) != len(v.dims):
+        return ("bad",)
+    try:
+        letters = [ix_letter(a) for a in args]
+        if None in letters or not ix_compiled(letters):
+            return ("bad",)
+        sels, undef = [], False
+        for a, L in zip(args, v.dims):
+            if a == "_":
+                sels.append((False, list(range(L))))
+            elif a.startswith("i:"):
+                sels.append((True, [tok(a[2:], L)]))
+            elif a[0] in "vx":
+                sels.append((False, ints_of(a[2:])))
+            elif a[0] == "w":
+                sels.append((False, [L - 1 - k for k in ints_of(a[2:])]))       # end - K
+            else:
+                p = a[2:].split(",")
+                b, e = tok(p[0], L), tok(p[1], L)
+                st = int(p[2]) if a.startswith("s:") else 1
+                x = sel_range(b, e, st, L, checked)
+                if x == "index_out_of_bounds":          # thrown by the constructor (get_size_with_len)
+                    return ("err", x) if not undef else UNDEF
+                if x is UNDEF:
+                    undef = True
+                    x = []
+                sels.append((False, x))
+        if undef:
+            return UNDEF
+    except ValueError:
+        return ("bad",)
+    dims = [len(x) for sc, x in sels if not sc]
+    elems = [] if 0 in dims else list(itertools.product(*[x for _, x in sels]))
+    return ("ix", {"dims": dims, "elems": elems, "pdims": list(v.dims)})
+
+
+def parse_ix_line(line):
+    """'ok r=.. d=.. e=.. w=.. z=..' -> dict; e: list or '!class'; w, z: (dict cell -> value, '' or '!class')"""
+    w = line.split(" ")
+    if w[0] != "ok" or len(w) != 6:
+        return None
+    d = {}
+    try:
+        for t in w[1:]:
+            k, x = t.split("=", 1)
+            d[k] = x
+        out = {"r": int(d["r"]), "d": ints_of(d["d"])}
+        out["e"] = d["e"] if d["e"].startswith("!") else ints_of(d["e"])
+        for k in ("w", "z"):
+            body, _, err = d[k].partition("!")
+            m = {}
+            if body:
+                for t in body.split(";"):
+                    c, x = t.split(":")
+                    m[int(c)] = int(x)
+            out[k] = (m, ("!" + err) if err else "")
+        return out
+    except (KeyError, ValueError):
+        return None
+
+
+def judge_ix(v, info, line, checked, vol):
+    """compare the implementation's answer to `ix` with what the selectors denote; None or (message, signature)"""
+    o = parse_ix_line(line)
+    sig = None
+    dims = info["dims"]
+    if 0 in dims[1:] and dims[0] != 0:
+        sig = SIG_EMPTY           # a zero extent behind a non-zero leading extent (IndexedArray::empty() tests dimension 0 only)
+    if o is None:
+        return "expected an indexed array, implementation answered %r" % line[:120], sig
+    if o["r"] != len(dims):
+        return "rank %d, the selectors denote rank %d" % (o["r"], len(dims)), sig
+    if o["d"] != dims:
+        return "extents %s, documented extents %s" % (o["d"], dims), sig
+    pd = info["pdims"]
+    inr = [all(0 <= i < L for i, L in zip(t, pd)) for t in info["elems"]]
+    if not checked and not all(inr):
+        return None                                    # inadmissible in the default build: outside the property (never generated)
+    bad = next((k for k, ok in enumerate(inr) if not ok), None)
+    cells = [v.at(t) if ok else None for t, ok in zip(info["elems"], inr)]
+    if bad is None:
+        if o["e"] != cells:
+            if isinstance(o["e"], str):
+                return "reading raised %s although every index is admissible" % o["e"][1:], sig
+            k = next((i for i, (a, b) in enumerate(zip(o["e"], cells)) if a != b), min(len(o["e"]), len(cells)))
+            return ("element number %d (parent index %s) reads parent cell %s, the selectors denote cell %s"
+                    % (k, list(info["elems"][k]) if k < len(cells) else "-", o["e"][k] if k < len(o["e"]) else "-",
+                       cells[k] if k < len(cells) else "-")), sig
+        for key, val in (("w", lambda j: -(j + 1)), ("z", lambda j: -7)):
+            want = {}
+            for j, c in enumerate(cells):
+                want[c] = val(j)
+            got, err = o[key]
+            if err:
+                return "assignment (%s) raised %s although every index is admissible" % (key, err[1:]), sig
+            if got != want:
+                extra = sorted(set(got) - set(want))
+                miss = sorted(set(want) - set(got))
+                wrong = sorted(c for c in set(got) & set(want) if got[c] != want[c])
+                return ("assignment through the indexed array (%s) changed parent cells %s that it does not denote / left %s "
+                        "unchanged / stored wrong values in %s" % ("array" if key == "w" else "scalar", extra[:6], miss[:6], wrong[:6])), sig
+        if any(not 0 <= c < vol for c in cells):
+            return "indexed array reads outside the parent allocation", sig
+        return None
+    # bounds-checked build, some element has an index outside 0..n-1: it must not be accessed
+    t = info["elems"][bad]
+    which = "index %s of element number %d is outside the parent extents %s" % (list(t), bad, pd)
+    if o["e"] != "!index_out_of_bounds":
+        return "%s but reading raised no index_out_of_bounds (answer e=%s)" % (which, str(o["e"])[:80]), sig
+    for key, val in (("w", lambda j: -(j + 1)), ("z", lambda j: -7)):
+        got, err = o[key]
+        if err != "!index_out_of_bounds":
+            return "%s but the %s assignment raised %s" % (which, "array" if key == "w" else "scalar", err[1:] or "nothing"), sig
+        allowed = {}
+        for j, c in enumerate(cells):
+            if c is not None:
+                allowed.setdefault(c, set()).add(val(j))
+        for c, x in got.items():
+            if c not in allowed or x not in allowed[c]:
+                return ("%s; the assignment changed parent cell %d to %d, which no admissible element of the selection "
+                        "denotes" % (which, c, x)), sig
+    return None
+
+
 def parse_line(line):
     """'ok r=.. d=.. s=.. o=.. e=.. w=..' -> dict"""
     w = line.split(" ")
@@ -294,6 +478,21 @@ def oracle(lines_in, lines_out, checked):
             if out != exp:
                 return i, "is_contiguous(): implementation %r, offsets/extents of the view say %r" % (out, exp)
             continue
+        if w[0] == "ix":
+            res = oracle_ix(v, w, checked)
+            if res is UNDEF:
+                return None
+            if res[0] == "bad":
+                if out != "bad-op":
+                    return i, "this indexing call is not in the compiled menu / does not exist, implementation answered %r" % out[:100]
+            elif res[0] == "err":
+                if out != "err " + res[1]:
+                    return i, "expected exception %s from the indexing call, implementation answered %r" % (res[1], out[:160])
+            else:
+                msg = judge_ix(v, res[1], out, checked, vol)
+                if msg:
+                    return i, "ix: " + msg[0], msg[1]
+            continue               # an indexed array is an expression: the current view is unchanged
         res = oracle_apply(v, w, checked)
         if res is UNDEF:
             return None            # outside the property (never generated); stop judging this composition
@@ -318,9 +517,9 @@ def oracle(lines_in, lines_out, checked):
 
 # ====================================================================== generators
 class Gen:
-    def __init__(self, rng, checked, malformed, depth, stats, contig=False, maxrank=5, pbad=0.3):
+    def __init__(self, rng, checked, malformed, depth, stats, contig=False, maxrank=5, pbad=0.3, w_ix=5):
         self.rng, self.checked, self.malformed, self.depth, self.stats = rng, checked, malformed, depth, stats
-        self.contig, self.maxrank, self.pbad = contig, maxrank, pbad
+        self.contig, self.maxrank, self.pbad, self.w_ix = contig, maxrank, pbad, w_ix
         # ranks of the parent: mostly low in the valid streams (more operations apply), uniform in the malformed one
         self.ranks = [1, 2, 3, 4, 5] if (malformed and pbad >= 0.3) else [1, 2, 2, 2, 3, 3, 4, 5]
 
@@ -397,8 +596,12 @@ class Gen:
             choices += ["T"] * 2 + ["diag"] * (3 if square else 1) + ["subdiag"] * (3 if square else 1)
         if r == 1:
             choices += ["reshape"] * 5
-        kind = rng.choice(choices)
         empty_dim = any(d == 0 for d in v.dims)
+        if r <= 4 and not empty_dim:
+            choices += ["ix"] * self.w_ix
+        kind = rng.choice(choices)
+        if kind == "ix":
+            return self.ix_op(v, bad)
         if kind == "slice":
             args, kinds = [], []
             for L in v.dims:
@@ -505,6 +708,109 @@ class Gen:
             return "reshape " + " ".join(map(str, nd)), "reshape"
         return "softlink", "softlink"
 
+
+    # ------------------------------------------------------------ integer-vector indexing
+    def ix_range(self, L, letter_end):
+        """a non-empty range/stride selector; letter_end: write at least one end point through `end`"""
+        rng = self.rng
+        s = rng.choice([1, 1, 2, -1, -2, 3])
+        a = rng.randrange(L); b = rng.randrange(L)
+        lo, hi = min(a, b), max(a, b)
+        b, e = (lo, hi) if s > 0 else (hi, lo)
+        tb, te = self.E(b, L), self.E(e, L)
+        if letter_end and not (tb.startswith("e") or te.startswith("e")):
+            te = "e%d" % (L - 1 - e)
+        if s == 1 and rng.random() < 0.7:
+            return "r:%s,%s" % (tb, te)
+        return "s:%s,%s,%d" % (tb, te, s)
+
+    def ix_entries(self, L, maxlen):
+        rng = self.rng
+        m = rng.randint(1, maxlen)
+        k = rng.random()
+        if k < 0.25 and L >= 2:
+            ent = rng.sample(range(L), min(m, L))              # distinct
+        elif k < 0.35:
+            ent = [rng.randrange(L)] * m                        # one entry repeated
+        else:
+            ent = [rng.randrange(L) for _ in range(m)]          # repeats allowed: the last write wins
+        return ent
+
+    def ix_op(self, v, bad):
+        """A(S0,S1,..) with at least one index vector on the oracle view v (rank 1..4, no zero extent)"""
+        rng = self.rng
+        r = len(v.dims)
+        if r == 1:
+            letters = [rng.choice("VVXW")]
+        elif r == 2:
+            while True:
+                letters = [rng.choice("IERRAVVVXW") for _ in range(2)]
+                if any(l in IX_VEC for l in letters):
+                    break
+        elif r == 3:
+            while True:
+                letters = [rng.choice("IIEERAVVV") for _ in range(3)]
+                if any(l in IX_VEC for l in letters):
+                    break
+        else:
+            letters = list(rng.choice(IX_MENU4))
+        nvec = sum(1 for l in letters if l in "VXWRA")
+        maxlen = 5 if nvec <= 2 else (4 if nvec == 3 else 3)
+        args = []
+        for l, L in zip(letters, v.dims):
+            if l == "I":
+                args.append("i:%d" % rng.randrange(L))
+            elif l == "E":
+                args.append("i:e%d" % rng.randrange(L))
+            elif l == "R":
+                args.append(self.ix_range(L, False))
+            elif l == "A":
+                args.append("_")
+            else:
+                ent = self.ix_entries(L, maxlen)
+                if l == "W":
+                    ent = [L - 1 - x for x in ent]
+                args.append("%s:%s" % (l.lower(), ",".join(map(str, ent))))
+        self.count("ix_rank%d_%s" % (r, "".join(letters)) if r != 3 else "ix_rank3")
+        for l in letters:
+            self.count("ix_arg_" + l)
+        if rng.random() < 0.04:
+            # nothing selected: an empty index vector / range in the first non-scalar position (zero leading extent)
+            j = next(k for k, l in enumerate(letters) if l not in "IE")
+            if letters[j] in IX_VEC:
+                args[j] = letters[j].lower() + ":"
+                self.count("ix_empty_leading_vector")
+            elif letters[j] == "R" and v.dims[j] >= 2:
+                e = rng.randrange(v.dims[j] - 1)
+                args[j] = "r:%d,%d" % (e + 1, e)
+                self.count("ix_empty_leading_range")
+        if bad and self.checked:
+            # one inadmissible value: an index-vector entry, a scalar index or a range end point
+            cand = [k for k, l in enumerate(letters) if l != "A"]
+            j = rng.choice([k for k in cand if letters[k] in IX_VEC] * 3 + cand)
+            L = v.dims[j]
+            x = rng.choice([-1, L, L, L + 1, -2])
+            side = "below" if x < 0 else ("at_n" if x == L else "above")
+            l = letters[j]
+            if l in IX_VEC:
+                ent = ints_of(args[j][2:]) or [0]
+                q = rng.randrange(len(ent))
+                ent[q] = (L - 1 - x) if l == "W" else x
+                args[j] = "%s:%s" % (l.lower(), ",".join(map(str, ent)))
+                self.count("malformed_ix_entry_%s_%s" % (l, side))
+            elif l in "IE":
+                args[j] = "i:" + (("e%d" % (L - 1 - x)) if l == "E" else str(x))
+                self.count("malformed_ix_scalar_%s_%s" % (l, side))
+            else:
+                good = rng.randrange(L)
+                # keep the C++ extent non-negative: the bad end point is the far one in the direction of the stride
+                if x < 0:
+                    args[j] = rng.choice(["r:%d,%d" % (x, good), "s:%d,%d,-1" % (good, x), "s:e%d,%s,2" % (L - 1 - x, good)])
+                else:
+                    args[j] = rng.choice(["r:%d,%d" % (good, x), "s:%d,%d,-1" % (x, good), "s:%d,e%d,2" % (good, L - 1 - x)])
+                self.count("malformed_ix_range_" + side)
+        return "ix " + " ".join(args), "ix"
+
     def composition(self):
         """-> list of lines (parent first)"""
         line, v = self.parent()
@@ -519,6 +825,23 @@ class Gen:
             if v is None or v.null or not v.dims:
                 break
             text, kind = self.op(v)
+            if kind == "ix":
+                res = oracle_ix(v, text.split(), self.checked)
+                if res is UNDEF or res[0] == "bad":
+                    self.count("regenerated")
+                    continue
+                lines.append(text)
+                self.count("op_ix")
+                if res[0] == "err":
+                    self.count("error_ix_constructor_" + res[1])
+                else:
+                    self.count("ix_result_rank_%d" % len(res[1]["dims"]))
+                    if not res[1]["elems"]:
+                        self.count("ix_result_empty")
+                    elif any(not all(0 <= i < L for i, L in zip(t, v.dims)) for t in res[1]["elems"]):
+                        self.count("ix_result_rejected_element")
+                n += 1
+                continue
             res = oracle_apply(v, text.split(), self.checked)
             if res is UNDEF or res[0] == "bad":
                 self.count("regenerated")
@@ -569,6 +892,104 @@ def systematic_malformed():
     return out
 
 
+IX_SYS_PATTERNS = {1: ["V", "X", "W"],
+                   2: ["VI", "IV", "VE", "EV", "VA", "AV", "VR", "RV", "VV", "XW", "WX", "XI", "AW"],
+                   3: ["VII", "IVI", "IIV", "IEV", "EIV", "VEI", "AVI", "RIV", "VAV", "VVV", "EVR", "IVA"],
+                   4: list(IX_MENU4)}
+
+
+def ix_valid_arg(letter, L, k):
+    """an admissible selector of the given letter for a dimension of length L (k varies the values)"""
+    if letter == "I":
+        return "i:%d" % (k % L)
+    if letter == "E":
+        return "i:e%d" % (k % L)
+    if letter == "R":
+        return ["r:0,e0", "s:e0,0,-1", "s:0,%d,2" % (L - 1)][k % 3]
+    if letter == "r":                       # plain end points: RangeIndex<int,int,int> for ranks 1-2
+        return ["r:0,%d" % (L - 1), "s:%d,0,-1" % (L - 1), "s:0,%d,2" % (L - 1)][k % 3]
+    if letter == "A":
+        return "_"
+    ent = [(k + 1) % L, 0, L - 1]
+    if letter == "W":
+        ent = [L - 1 - x for x in ent]
+    return "%s:%s" % (letter.lower(), ",".join(map(str, ent)))
+
+
+def systematic_malformed_ix():
+    """bounds-checked build: for ranks 1..4 and a list of argument-type patterns per rank, every position of every
+    index vector holding n, n+1 and -1 in turn (as intVector, as tmp+2, as end-tmp); every scalar position holding n
+    and -1 (int and end-k); every range position with an end point n / -1.  The indexed array is a view strictly
+    inside a larger parent, so that a missed test lands in the parent allocation.  One composition per case."""
+    out = []
+    for r in range(1, 5):
+        big = [5, 6, 4, 5][:r]
+        dims = [3, 4, 2, 3][:r]
+        head = ["parent rm " + " ".join(map(str, big)),
+                "subset " + " ".join("1 %d" % d for d in dims)]
+        for pat in IX_SYS_PATTERNS[r]:
+            base = [ix_valid_arg(l, L, k) for k, (l, L) in enumerate(zip(pat, dims))]
+            out.append(head + ["ix " + " ".join(base)])
+            for j, (l, L) in enumerate(zip(pat, dims)):
+                if l in IX_VEC:
+                    ent = ints_of(base[j][2:])
+                    for q in range(len(ent)):
+                        for x in (L, L + 1, -1):
+                            e2 = list(ent)
+                            e2[q] = (L - 1 - x) if l == "W" else x
+                            a = list(base)
+                            a[j] = "%s:%s" % (l.lower(), ",".join(map(str, e2)))
+                            out.append(head + ["ix " + " ".join(a), "softlink"])
+                elif l in "IE":
+                    for x in (L, -1):
+                        a = list(base)
+                        a[j] = "i:" + (("e%d" % (L - 1 - x)) if l == "E" else str(x))
+                        out.append(head + ["ix " + " ".join(a), "softlink"])
+                elif l == "R":
+                    for t in ("r:0,%d" % L, "r:-1,0", "s:%d,0,-1" % L, "s:e0,e%d,-1" % L, "r:0,e-1"):
+                        a = list(base)
+                        a[j] = t
+                        out.append(head + ["ix " + " ".join(a), "softlink"])
+    return out
+
+
+def menu_sweep():
+    """every argument-type pattern compiled into the harness, twice with different admissible values, on a view with
+    pairwise different extents lying inside a larger parent (row- and column-major); run in both builds"""
+    out = []
+    for r in range(1, 5):
+        big = [5, 6, 4, 5][:r]
+        dims = [3, 4, 2, 5][:r]
+        if r == 1:
+            pats = ["V", "X", "W"]
+        elif r == 2:
+            pats = ["".join(p) for p in itertools.product("IErRAVXW", repeat=2)]
+        elif r == 3:
+            pats = ["".join(p) for p in itertools.product("IERAV", repeat=3)]
+        else:
+            pats = list(IX_MENU4)
+        pats = [p for p in pats if any(l in IX_VEC for l in p)]
+        for n, pat in enumerate(pats):
+            head = ["parent %s %s" % ("cm" if n % 4 == 3 else "rm", " ".join(map(str, big))),
+                    "subset " + " ".join("%d %d" % (b - d, b - 1) for b, d in zip(big, dims))]
+            ops = ["ix " + " ".join(ix_valid_arg(l, L, k + v) for k, (l, L) in enumerate(zip(pat, dims))) for v in (0, 1)]
+            out.append(head + ops)
+    return out
+
+
+def empty_extent_probes():
+    """nothing selected in a LATER position (empty index vector / empty range behind a non-empty leading extent):
+    no element exists, so nothing may be read or written.  (Pinned IndexedArray::empty() tests dimension 0 only:
+    the scalar assignment then stores to cells / reads entry 0 of the empty vector; fixes/C06-indexed-empty-extent.patch)"""
+    return [["parent rm 3 4", "ix v:1,0 v:"],
+            ["parent rm 3 4", "ix v:1,0 r:2,1"],
+            ["parent rm 2 5 4", "ix v:1,0 r:1,0 v:1"],
+            ["parent rm 2 5 4", "ix v:1,0 v: v:1"],
+            ["parent rm 2 5 4", "ix v:1,0 i:2 v:"],
+            ["parent rm 2 5 4", "ix _ v: i:e0"],
+            ["parent rm 2 3 2 3", "ix v:1 r:1,0 _ v:2,0"]]
+
+
 # ====================================================================== running
 def run_pair(exe, mode, comps):
     """run implementation and model on the compositions; -> (impl_lines, model_lines, rc, err)"""
@@ -578,9 +999,28 @@ def run_pair(exe, mode, comps):
     return impl, model, rc, err
 
 
-def signature_of(err):
+def signature_of(err, lines=None, nout=None, checked=False):
+    """signature of a crash: by the sanitizer report, or by the operation the implementation stopped in"""
     if "is_contiguous" in err:
         return "F-08:is_contiguous-reads-offset-out-of-bounds"
+    if lines is not None and nout is not None and 0 <= nout < len(lines) and lines[nout].startswith("ix "):
+        # replay the oracle up to the crashing `ix` to see whether it has a zero extent behind a non-zero leading one
+        v = None
+        for l in lines[:nout]:
+            w = l.split()
+            if w[0] == "parent":
+                v = parent_view(w[1], [int(x) for x in w[2:]])
+            elif w[0] not in ("contig", "ix") and v is not None:
+                res = oracle_apply(v, w, checked)
+                if res is UNDEF:
+                    return None
+                if res[0] == "ok":
+                    v = res[1]
+                elif res[0] == "null":
+                    v = OV([0], [], null=True)
+        res = oracle_ix(v, lines[nout].split(), checked)
+        if res is not UNDEF and res[0] == "ix" and 0 in res[1]["dims"][1:] and res[1]["dims"][0] != 0:
+            return SIG_EMPTY
     return None
 
 
@@ -611,7 +1051,8 @@ def run_batch(ctx, exe, mode, comps, label):
                 msg = "implementation stopped (rc=%s) while executing %r: %s" % (rc2, shr[min(len(i2) - 1, len(shr) - 1)] if i2 else "?", summarize(err2 or err))
                 ctx.violation("%s [%s build]" % (msg, label),
                               {"kind": "oracle", "mode": mode, "lines": shr, "impl": i2[1:], "build": label, "message": msg,
-                               "stderr": (err2 or err)[-3000:], "signature": signature_of(err2 or err)})
+                               "stderr": (err2 or err)[-3000:],
+                               "signature": signature_of(err2 or err, shr, len(i2) - 1 if i2 else None, checked)})
                 nxt = todo[ci + 1:] if crashes < 3 else []
                 break
             bad = oracle(c, il, checked)
@@ -623,7 +1064,8 @@ def run_batch(ctx, exe, mode, comps, label):
                     b2 = oracle(shr, i2[1:], checked) or bad
                     ctx.violation("%s — after %r [%s build]" % (b2[1], shr[min(b2[0], len(shr) - 1)], label),
                                   {"kind": "oracle", "mode": mode, "lines": shr, "step": b2[0], "message": b2[1],
-                                   "impl": i2[1:], "model": m2[1:], "build": label})
+                                   "impl": i2[1:], "model": m2[1:], "build": label,
+                                   "signature": b2[2] if len(b2) > 2 else None})
             elif vcheck.first_diff(il, ml) is not None:
                 ctx.cov["disagreements_checked"] += 1
                 if len(ctx.pending) < 2:
@@ -662,9 +1104,29 @@ def shrink(ctx, exe, mode, c, what):
         return vcheck.first_diff(il, ml) is not None
     if not ops:
         return c
-    if len(ops) == 1:
-        return c
-    return [head] + vcheck.ddmin(list(ops), fails, max_tests=60)
+    if len(ops) > 1:
+        ops = vcheck.ddmin(list(ops), fails, max_tests=60)
+    # then the entries of every index vector of every `ix` operation (ddmin over the entry list)
+    budget = [40]
+    for k, op in enumerate(ops):
+        if not op.startswith("ix "):
+            continue
+        args = op.split()[1:]
+        for j, a in enumerate(args):
+            if a[:2] not in ("v:", "x:", "w:") or a.count(",") == 0:
+                continue
+
+            def fails_entries(ent, k=k, j=j):
+                if budget[0] <= 0:
+                    return False
+                budget[0] -= 1
+                a2 = list(args)
+                a2[j] = a[:2] + ",".join(ent)
+                return fails(ops[:k] + ["ix " + " ".join(a2)] + ops[k + 1:])
+            ent = vcheck.ddmin(a[2:].split(","), fails_entries, max_tests=20)
+            args[j] = a[:2] + ",".join(ent)
+            ops = ops[:k] + ["ix " + " ".join(args)] + ops[k + 1:]
+    return [head] + list(ops)
 
 
 def load_corpus():
@@ -710,6 +1172,11 @@ def run(ctx, replay):
     fails = vcheck.lean_gate(ctx, ["AdeptProofs.Props.C06"], thms, required=[NS + r for r in REQUIRED])
     exes = build_all()
     ctx.pending = []
+    # entries proposed for known_findings.json by this check's builder (same matching rule: open + signature)
+    prop = os.path.join(vbuild.VERIF, "fixes", "known_findings_C06.proposed.json")
+    if os.path.exists(prop):
+        have = {f.get("id") for f in ctx.findings}
+        ctx.findings = list(ctx.findings) + [f for f in json.load(open(prop)).get("findings", []) if f.get("id") not in have]
     ctx.assumptions += [
         "the default build is given admissible arguments only (scalar indices and range end points in 0..n-1, non-zero "
         "stride); permute is given a permutation; direction-inconsistent ranges further apart than one stride and "
@@ -717,6 +1184,10 @@ def run(ctx, replay):
         "outside the property)",
         "Index arithmetic does not overflow; element type int, passive arrays (views of active arrays share this code "
         "but are not executed here); ranks 1..5 (the C++ supports 7)",
+        "integer-vector indexing: ranks 1..4, argument-type patterns of the compiled menu (drv_views_idx.h); the default "
+        "build is given admissible index-vector entries only; a zero extent behind a non-zero leading extent is probed by "
+        "seven fixed cases only (finding: IndexedArray::empty() tests dimension 0 only), the random streams select "
+        "nothing only through the first non-scalar argument",
     ]
     if replay:
         r = json.load(open(replay))
@@ -749,10 +1220,22 @@ def run(ctx, replay):
     sysm = systematic_malformed()
     ctx.notes["systematic_malformed_cases"] = len(sysm)
     run_batch(ctx, exes["checked"], "checked", sysm, "bounds-checking/systematic")
+    sweep = menu_sweep()
+    ctx.notes["indexed_menu_patterns"] = len(sweep)
+    run_batch(ctx, exes["unchecked"], "unchecked", sweep, "default/indexed-menu")
+    run_batch(ctx, exes["checked"], "checked", sweep, "bounds-checking/indexed-menu")
+    sysx = systematic_malformed_ix()
+    ctx.notes["systematic_malformed_indexed_cases"] = len(sysx)
+    run_batch(ctx, exes["checked"], "checked", sysx, "bounds-checking/systematic-indexed")
+    # zero extent behind a non-zero leading extent: one process per probe (the pinned tree may stop in it)
+    for mode in ("unchecked", "checked"):
+        for c in empty_extent_probes():
+            run_batch(ctx, exes[mode], mode, [c], ("default" if mode == "unchecked" else "bounds-checking") + "/indexed-empty-extent")
     ctx.notes["distribution"] = dict(sorted(stats.items()))
     ctx.cov["rule"] = ("compositions = parent (rank 1..5, row- or column-major, volume <= 240) followed by 1..%d view-forming "
                        "operations drawn from slice(int/end-k/range/stride(+/-)/__), subset, operator[], T, permute, diag_vector, "
-                       "submatrix_on_diagonal, reshape, soft_link; %d admissible compositions on the default build, %d on the "
+                       "submatrix_on_diagonal, reshape, soft_link, and (ranks 1..4) integer-vector indexing A(S0,..) with "
+                       "scalar/end-k/range/__/intVector/integer-expression selectors read and assigned through; %d admissible compositions on the default build, %d on the "
                        "bounds-checked build, %d with out-of-range values injected per argument position on the bounds-checked "
                        "build, %d with is_contiguous() probed after every step; non-trivial = at least two operations; distinct "
                        "= different (mode, op list)" % (depth, n_valid, n_valid_chk, n_malf, n_contig))
